@@ -816,7 +816,12 @@ class PlayingReactor(PacketReactor):
             self.connection.spawned = True
 
         elif packet.packet_name == "disconnect":
-            self.connection.disconnect()
+            try:
+                self.connection.disconnect()
+            except IOError:
+                # The server may already have closed the connection, in which
+                # case any remaining queued packets cannot be delivered.
+                self.connection.disconnect(immediate=True)
 
 
 class StatusReactor(PacketReactor):
